@@ -634,7 +634,7 @@ var clauseKeywords = map[string]bool{
 	"pure": true, "inline": true, "safe": true, "assume": true, "returns": true, "nopanic": true,
 	"purefield": true, "cases": true, "replay": true, "panics_if": true, "opaque": true, "reads": true,
 	"uses": true, "event": true, "mode": true, "assert": true, "noinline": true, "havoc": true, "maxpaths": true,
-	"trusted": true, "frame": true, "ghost": true,
+	"trusted": true, "frame": true, "ghost": true, "calls": true,
 }
 
 var tagRe = regexp.MustCompile(`^\[([A-Z0-9, ]+)\]\s*`)
@@ -907,6 +907,24 @@ func LoadContractFile(path string, trusted bool) (*ContractSet, error) {
 					c.Text = f[0]
 					c.Ord = ordCount[fmt.Sprintf("loopeach@%d", c.Loop)]
 					ordCount[fmt.Sprintf("loopeach@%d", c.Loop)]++
+					if c.Props == nil {
+						c.Props = fs.Props
+					}
+					fs.Clauses = append(fs.Clauses, c)
+				case "calls":
+					// calls F when EXPR: every return at which EXPR holds was preceded by a call of F
+					f := strings.SplitN(c.Text, " ", 3)
+					if len(f) != 3 || f[1] != "when" {
+						return fmt.Errorf("%s:%d: calls F when EXPR", path, c.Line)
+					}
+					e, err := ParseSExpr(f[2])
+					if err != nil {
+						return fmt.Errorf("%s:%d: %v", path, c.Line, err)
+					}
+					c.Expr = e
+					c.Text = f[0]
+					c.Ord = ordCount["calls"]
+					ordCount["calls"]++
 					if c.Props == nil {
 						c.Props = fs.Props
 					}
